@@ -57,6 +57,13 @@ struct DocGen<'t> {
     instances: Vec<(String, usize)>,
     /// local names bound to something else (funcs, aliases of exports, imports)
     others: Vec<String>,
+    /// imported inline interfaces: (local name, exports as (name, kind)); kind is
+    /// 'r' resource, 't' value type, 'f' function
+    imp_ifaces: Vec<(String, Vec<(String, char)>)>,
+    /// local interfaces with the type names they declare (usable in `use`)
+    iface_types: Vec<(String, Vec<String>)>,
+    /// local names bound (by `let`) to a resource type of an instance
+    resources: Vec<String>,
     counter: usize,
     probes: Vec<&'static str>,
     error_rate: u64, // per 100: how often to do something deliberately wrong
@@ -98,6 +105,14 @@ impl<'t> DocGen<'t> {
                 let i = self.t.index(self.types.len());
                 self.types[i].clone()
             }
+            7 if !self.resources.is_empty() => {
+                let i = self.t.index(self.resources.len());
+                if self.t.chance(1, 2) {
+                    format!("borrow<{}>", self.resources[i])
+                } else {
+                    self.resources[i].clone()
+                }
+            }
             _ => self.t.pick(PRIMS).to_string(),
         }
     }
@@ -116,7 +131,40 @@ impl<'t> DocGen<'t> {
     }
 
     fn type_statement(&mut self) {
-        match self.t.draw(6) {
+        match self.t.draw(8) {
+            6 => {
+                // an alias of whatever a local name is bound to (function, instance, resource,
+                // value type, alias of an export): accepted or rejected, never a crash
+                let mut pool: Vec<String> = Vec::new();
+                pool.extend(self.others.iter().cloned());
+                pool.extend(self.resources.iter().cloned());
+                pool.extend(self.instances.iter().map(|(n, _)| n.clone()));
+                pool.extend(self.types.iter().cloned());
+                if pool.is_empty() {
+                    return;
+                }
+                let target = if !self.resources.is_empty() && self.t.chance(1, 2) {
+                    self.resources[self.t.index(self.resources.len())].clone()
+                } else {
+                    pool[self.t.index(pool.len())].clone()
+                };
+                let n = self.fresh("al");
+                self.out.push_str(&format!("type {n} = {target};\n"));
+                self.probes.push("alias_of_local_name");
+            }
+            7 => {
+                // alias chain: t1 = <ty>; t2 = t1; t3 = t2 (the last one is what later items use)
+                let k = self.t.range(2, 4);
+                let base = self.ty(1);
+                let mut prev = self.fresh("ch");
+                self.out.push_str(&format!("type {prev} = {base};\n"));
+                for _ in 1..k {
+                    let n = self.fresh("ch");
+                    self.out.push_str(&format!("type {n} = {prev};\n"));
+                    prev = n;
+                }
+                self.types.push(prev);
+            }
             0 => {
                 let n = self.fresh("t");
                 let ty = self.ty(0);
@@ -201,6 +249,32 @@ impl<'t> DocGen<'t> {
             body.push_str(&format!("    use {path}.{{{ty} as {alias}}};\n"));
             body.push_str(&format!("    get-{alias}: func() -> {alias};\n"));
         }
+        let mut declared: Vec<String> = Vec::new();
+        // `use` of types (value types and resources) of an earlier local interface, with and
+        // without renaming, followed by a function over them
+        if !self.iface_types.is_empty() && self.t.chance(1, 2) {
+            let (src, names) = self.iface_types[self.t.index(self.iface_types.len())].clone();
+            if !names.is_empty() {
+                let ty = names[self.t.index(names.len())].clone();
+                let local = if self.t.chance(1, 2) {
+                    let l = format!("u-{}", ty);
+                    body.push_str(&format!("    use {src}.{{{ty} as {l}}};\n"));
+                    l
+                } else {
+                    body.push_str(&format!("    use {src}.{{{ty}}};\n"));
+                    ty.clone()
+                };
+                let p = if ty.starts_with("res") && self.t.chance(1, 2) {
+                    format!("borrow<{local}>")
+                } else {
+                    local.clone()
+                };
+                body.push_str(&format!("    over-{local}: func(a: {p}) -> option<{local}>;\n"));
+                body.push_str(&format!("    type re-{local} = {local};\n"));
+                declared.push(local);
+                self.probes.push("use_of_local_interface_type");
+            }
+        }
         let k = self.t.range(0, 3);
         for i in 0..k {
             match self.t.draw(3) {
@@ -211,11 +285,13 @@ impl<'t> DocGen<'t> {
                 1 => {
                     let ty = self.ty(1);
                     body.push_str(&format!("    type al{i} = {ty};\n"));
+                    declared.push(format!("al{i}"));
                 }
                 _ => {
                     body.push_str(&format!(
                         "    resource res{i} {{\n        constructor(a: u32);\n        get: func() -> u32;\n        make: static func() -> res{i};\n    }}\n"
                     ));
+                    declared.push(format!("res{i}"));
                 }
             }
         }
@@ -228,6 +304,7 @@ impl<'t> DocGen<'t> {
             }
         }
         self.out.push_str(&format!("interface {n} {{\n{body}}}\n"));
+        self.iface_types.push((n.clone(), declared));
         self.interfaces.push(n);
     }
 
@@ -248,6 +325,23 @@ impl<'t> DocGen<'t> {
                 let (path, ty, alias) = pool[k];
                 body.push_str(&format!("    use {path}.{{{ty} as {alias}}};\n"));
                 body.push_str(&format!("    import take-{alias}: func(v: {alias});\n"));
+            }
+        }
+        if !self.iface_types.is_empty() && self.t.chance(1, 3) {
+            let (src, names) = self.iface_types[self.t.index(self.iface_types.len())].clone();
+            if !names.is_empty() {
+                let ty = names[self.t.index(names.len())].clone();
+                let local = if self.t.chance(1, 2) {
+                    let l = format!("w-{}", ty);
+                    body.push_str(&format!("    use {src}.{{{ty} as {l}}};\n"));
+                    l
+                } else {
+                    body.push_str(&format!("    use {src}.{{{ty}}};\n"));
+                    ty
+                };
+                body.push_str(&format!("    import give-{local}: func(v: {local});\n"));
+                body.push_str(&format!("    export get-{local}: func() -> {local};\n"));
+                self.probes.push("use_of_local_interface_type");
             }
         }
         let k = self.t.range(0, 4);
@@ -345,7 +439,57 @@ impl<'t> DocGen<'t> {
         } else {
             String::new()
         };
-        match self.t.draw(7) {
+        match self.t.draw(9) {
+            7 | 8 => {
+                // an inline interface with resources, value types and functions over them;
+                // its exports are reachable by `let x = imp.name`
+                let mut body = String::new();
+                let mut exports: Vec<(String, char)> = Vec::new();
+                let k = self.t.range(1, 4);
+                for i in 0..k {
+                    match self.t.draw(5) {
+                        0 => {
+                            body.push_str(&format!("    resource r{i};\n"));
+                            body.push_str(&format!("    mk{i}: func() -> r{i};\n"));
+                            body.push_str(&format!("    peek{i}: func(x: borrow<r{i}>) -> u32;\n"));
+                            exports.push((format!("r{i}"), 'r'));
+                            exports.push((format!("mk{i}"), 'f'));
+                            exports.push((format!("peek{i}"), 'f'));
+                        }
+                        1 => {
+                            body.push_str(&format!(
+                                "    resource r{i} {{\n        constructor(a: u32);\n        get: func() -> u32;\n    }}\n"
+                            ));
+                            exports.push((format!("r{i}"), 'r'));
+                        }
+                        2 => {
+                            let ty = self.ty(1);
+                            body.push_str(&format!("    type t{i} = {ty};\n"));
+                            body.push_str(&format!("    f{i}: func(a: t{i}) -> t{i};\n"));
+                            exports.push((format!("t{i}"), 't'));
+                            exports.push((format!("f{i}"), 'f'));
+                        }
+                        3 => {
+                            body.push_str(&format!("    record rec{i} {{ a: u32, b: list<u8> }}\n"));
+                            body.push_str(&format!("    enum en{i} {{ x, y }}\n"));
+                            body.push_str(&format!("    g{i}: func(a: rec{i}, b: en{i});\n"));
+                            exports.push((format!("rec{i}"), 't'));
+                            exports.push((format!("en{i}"), 't'));
+                            exports.push((format!("g{i}"), 'f'));
+                        }
+                        _ => {
+                            let f = self.func_type();
+                            body.push_str(&format!("    h{i}: {f};\n"));
+                            exports.push((format!("h{i}"), 'f'));
+                        }
+                    }
+                }
+                self.out
+                    .push_str(&format!("import {n}{rename}: interface {{\n{body}}};\n"));
+                self.imp_ifaces.push((n.clone(), exports));
+                self.others.push(n);
+                self.probes.push("import_of_inline_interface_with_types");
+            }
             6 => {
                 // an explicit import carrying the name of an interface on the same semver track
                 // as (or equal to) an implicit import of the library components
@@ -483,6 +627,26 @@ impl<'t> DocGen<'t> {
     }
 
     fn let_access(&mut self) {
+        if !self.imp_ifaces.is_empty() && (self.instances.is_empty() || self.t.chance(1, 2)) {
+            let (imp, exports) = self.imp_ifaces[self.t.index(self.imp_ifaces.len())].clone();
+            let (e, kind) = exports[self.t.index(exports.len())].clone();
+            let n = self.fresh("acc");
+            if self.t.chance(1, 2) {
+                self.out.push_str(&format!("let {n} = {imp}.{e};\n"));
+            } else {
+                self.out.push_str(&format!("let {n} = {imp}[\"{e}\"];\n"));
+            }
+            match kind {
+                'r' => {
+                    self.resources.push(n.clone());
+                    self.probes.push("let_bound_resource_of_an_instance");
+                }
+                't' => self.types.push(n.clone()),
+                _ => {}
+            }
+            self.others.push(n);
+            return;
+        }
         if self.instances.is_empty() {
             return;
         }
@@ -497,10 +661,91 @@ impl<'t> DocGen<'t> {
         if self.wrong() {
             let bad = *self.t.pick(&["not-an-export", "нет", "é", "日本語/x@1.0.0"]);
             self.out.push_str(&format!("let {n} = {inst}[\"{bad}\"];\n"));
+        } else if e.chars().all(|c| c.is_ascii_lowercase() || c == '-') && self.t.chance(1, 2) {
+            self.out.push_str(&format!("let {n} = {inst}.{e};\n"));
         } else {
             self.out.push_str(&format!("let {n} = {inst}[\"{e}\"];\n"));
         }
+        // exports that are types of the library's odd components
+        if p.name == "odd:res" && e == "r" {
+            self.resources.push(n.clone());
+            self.probes.push("let_bound_resource_of_an_instance");
+        }
         self.others.push(n);
+    }
+
+    /// Statements that put the subtype checker to work on matching shapes: a function over an
+    /// alias chain passed for a function import, an instance with record / alias types passed
+    /// for an instance import, a world passed where a component is expected.
+    fn checker_family(&mut self) {
+        let n = self.fresh("chk");
+        match self.t.draw(4) {
+            0 => {
+                // func over list<u8> reached through 0-3 aliases (sometimes the wrong element type)
+                let elem = if self.wrong() { "u16" } else { "u8" };
+                let k = self.t.draw(4);
+                let mut prev = format!("list<{elem}>");
+                for _ in 0..k {
+                    let a = self.fresh("by");
+                    self.out.push_str(&format!("type {a} = {prev};\n"));
+                    prev = a;
+                }
+                let res = if self.t.chance(1, 2) { prev.clone() } else { format!("list<{elem}>") };
+                self.out
+                    .push_str(&format!("import {n}: func(data: {prev}) -> {res};\n"));
+                let inst = self.fresh("inst");
+                self.out
+                    .push_str(&format!("let {inst} = new test:consumer {{ process: {n}, ... }};\n"));
+                self.probes.push("func_over_alias_chain_as_argument");
+            }
+            1 => {
+                // an instance with the sink's shape (or nearly)
+                let b = if self.wrong() { "list<u16>" } else { "list<u8>" };
+                let second = if self.wrong() { "b: string" } else { "b: list<u8>" };
+                self.out.push_str(&format!(
+                    "import {n}: interface {{\n    record rec {{ a: u32, {second} }}\n    type buf0 = {b};\n    type buf = buf0;\n    take: func(r: rec, b: buf) -> buf;\n}};\n"
+                ));
+                let inst = self.fresh("inst");
+                self.out.push_str(&format!(
+                    "let {inst} = new test:consumer {{ \"test:consumer/sink\": {n}, ... }};\n"
+                ));
+                self.probes.push("instance_with_type_exports_as_argument");
+            }
+            2 => {
+                // a world where a component type is expected; 0-3 of its items are absent
+                let mut items: Vec<&str> = vec![
+                    "import alpha: func();",
+                    "import beta: func();",
+                    "export gamma: func();",
+                    "export delta: func();",
+                    "export epsilon: func();",
+                ];
+                let drop = self.t.draw(4) as usize;
+                self.t.shuffle(&mut items);
+                let kept: Vec<&str> = items.iter().skip(drop).copied().collect();
+                let w = self.fresh("shape");
+                self.out.push_str(&format!("world {w} {{\n    {}\n}}\n", kept.join("\n    ")));
+                self.out.push_str(&format!("import {n}: {w};\n"));
+                let inst = self.fresh("inst");
+                self.out
+                    .push_str(&format!("let {inst} = new test:two-shape {{ c: {n}, ... }};\n"));
+                if drop >= 2 {
+                    self.probes.push("component_argument_missing_>=2_items");
+                }
+            }
+            _ => {
+                // spread of an instance that matches several imports of the target
+                let a = self.fresh("src");
+                self.out.push_str(&format!(
+                    "import {a}: interface {{\n    x: func();\n    y: func();\n    z: func();\n}};\n"
+                ));
+                let inst = self.fresh("inst");
+                let tail = if self.wrong() { "" } else { ", ..." };
+                self.out
+                    .push_str(&format!("let {inst} = new test:two-shape {{ ...{a}{tail} }};\n"));
+                self.probes.push("spread_matching_>=2_imports");
+            }
+        }
     }
 
     fn export_statement(&mut self) {
@@ -551,6 +796,9 @@ pub fn gen_doc(t: &mut Tape, max_statements: u64) -> DocCase {
         worlds: Vec::new(),
         instances: Vec::new(),
         others: Vec::new(),
+        imp_ifaces: Vec::new(),
+        iface_types: Vec::new(),
+        resources: Vec::new(),
         counter: 0,
         probes: Vec::new(),
         error_rate,
@@ -572,17 +820,19 @@ pub fn gen_doc(t: &mut Tape, max_statements: u64) -> DocCase {
         let pick = g.t.draw(20);
         match family {
             0 => match pick {
-                0..=9 => g.type_statement(),
+                0..=8 => g.type_statement(),
+                9 => g.let_access(),
                 10..=12 => g.interface_decl(),
-                13..=16 => g.world_decl(),
-                17 => g.import_statement(),
+                13..=15 => g.world_decl(),
+                16..=17 => g.import_statement(),
                 18 => g.let_new(),
                 _ => g.export_statement(),
             },
             1 => match pick {
                 0..=1 => g.type_statement(),
                 2..=4 => g.import_statement(),
-                5..=11 => g.let_new(),
+                5..=10 => g.let_new(),
+                11 => g.checker_family(),
                 12..=14 => g.let_access(),
                 _ => g.export_statement(),
             },
@@ -597,10 +847,21 @@ pub fn gen_doc(t: &mut Tape, max_statements: u64) -> DocCase {
                 5 => g.interface_decl(),
                 6..=7 => g.world_decl(),
                 8..=9 => g.import_statement(),
-                10..=14 => g.let_new(),
+                10..=13 => g.let_new(),
+                14 => g.checker_family(),
                 15..=16 => g.let_access(),
                 _ => g.export_statement(),
             },
+        }
+    }
+    // documents that import an interface with types usually go on to use its exports
+    if !g.imp_ifaces.is_empty() && g.t.chance(2, 3) {
+        g.let_access();
+        if g.t.chance(1, 2) {
+            g.type_statement();
+        }
+        if g.t.chance(1, 2) {
+            g.export_statement();
         }
     }
     // aggregator-heavy documents often end with an explicit import that sits on the semver
@@ -741,4 +1002,30 @@ pub fn shipped_cases() -> &'static Vec<DocCase> {
         }
         cases
     })
+}
+
+/// Hand-written documents that resolve and encode on the unchanged tree and together touch
+/// the statement and type grammar far more densely than the shipped examples: the seeds of
+/// the byte- and token-level fault enumeration, and extra members of C16's document pool.
+pub const HANDWRITTEN: &[(&str, &str)] = &[
+    ("doc:types", include_str!("docs/types.wac")),
+    ("doc:ifaces", include_str!("docs/ifaces.wac")),
+    ("doc:compose", include_str!("docs/compose.wac")),
+    ("doc:access", include_str!("docs/access.wac")),
+    ("doc:checker", include_str!("docs/checker.wac")),
+    ("doc:odd", include_str!("docs/odd.wac")),
+    ("doc:targets", include_str!("docs/targets.wac")),
+    ("doc:worlds", include_str!("docs/worlds.wac")),
+];
+
+pub fn handwritten_cases() -> Vec<DocCase> {
+    HANDWRITTEN
+        .iter()
+        .map(|(label, source)| DocCase {
+            label: label.to_string(),
+            source: source.to_string(),
+            packages: lib_packages(),
+            probes: Vec::new(),
+        })
+        .collect()
 }
